@@ -629,7 +629,11 @@ func confirmRace(plain, raceBin string, ph phase, seed uint64, h *raceHit, tmp, 
 		return ""
 	}
 	// minimise with child processes of the race build, then confirm
-	cmd = exec.Command(raceBin, "shrinkrace", "-file", out, "-budget", "90s")
+	budget := "90s"
+	if b := os.Getenv("VERIF_RACE_SHRINK_BUDGET"); b != "" {
+		budget = b // the regression over all seeded changes only needs the verdict, not minimal replays
+	}
+	cmd = exec.Command(raceBin, "shrinkrace", "-file", out, "-budget", budget)
 	cmd.Env = append(os.Environ(), "GOMAXPROCS=2", "GORACE=log_path=/dev/null exitcode=0", "SIM_TMP="+tmp, autoEnv(ph.Auto))
 	b, _ := cmd.CombinedOutput()
 	fmt.Printf("  race minimisation: %s\n", strings.TrimSpace(tail(string(b), 600)))
